@@ -83,6 +83,15 @@ def items(tier):
                     variant = VARIANTS[(mi + ti + rep) % len(VARIANTS)]
                     out.append({"shape": SHAPES[(mi + ti * 2 + rep * 5) % len(SHAPES)], "metric": name, "axis": AXES[ai], "type": typ,
                                 "variant": variant, "k": mi + ti + rep, "kind": "netcdf" if (mi + ti + rep) % 4 == 0 else "text"})
+    # field metrics on the conditional axes with every aggregator and -r edges that leave bins empty
+    n = 0
+    for fld in ("obs", "fcst"):
+        for axis in ("obs", "fcst"):
+            for ai, agg in enumerate(AGGS + ["change", "abschange", "mean", "0.5"]):
+                typ = ["csv", "plot", "text"][(n + ai) % 3]
+                out.append({"shape": SHAPES[(n + ai) % len(SHAPES)], "metric": fld, "axis": axis, "type": typ, "variant": "empty-bins", "k": ai,
+                            "agg": agg, "kind": "text"})
+            n += 1
     # -hist / -sort on fields
     for fi, fld in enumerate(["obs", "fcst", "aux", "pit"]):
         for flag in ("-hist", "-sort"):
@@ -113,7 +122,9 @@ def run_item(ctx, item, paths):
     if item["axis"] is not None:
         args += ["-x", item["axis"]]
     args += ["-type", item["type"]]
-    if item["variant"] in ("-hist", "-sort"):
+    if item["variant"] == "empty-bins":
+        args += ["-r", "-1000,-500,0,500,1000", "-agg", item["agg"], "-b", ["within", "above", "below"][item.get("k", 0) % 3]]
+    elif item["variant"] in ("-hist", "-sort"):
         args += [item["variant"], "-r", "-5,0,5"]
     else:
         args += variant_args(item["metric"], item["variant"], item.get("k", 0), item["axis"])
